@@ -954,3 +954,19 @@ def _m71():
     from bfg9000.builtins import pkg_config as pc
     _patch_source(pc, 'finalize_pkg_config', 'if getattr(info, key) is None:',
                   'if not getattr(info, key):')
+
+
+@mutant('msbuild_default_moves_all')
+def _m72():
+    from bfg9000.builtins import default as bd
+    _patch_source(bd, 'msbuild_default', 'solution.set_default(defaults.default_outputs[0])',
+                  'for i in reversed(defaults.default_outputs):\n                solution.set_default(i)')
+
+
+@mutant('path_hash_includes_directory')
+def _m73():
+    from bfg9000.platforms import basepath as bp
+
+    def __hash__(self):
+        return hash((self.root, self.suffix, self.destdir, self.directory))
+    bp.BasePath.__hash__ = __hash__
